@@ -79,7 +79,7 @@ ENTRIES = [
 # encoder-side families with symptoms '<codec>:<family>' on generic ('enc', T, v, codec, defMode, chunk) cases
 ENC_PROPS = {
  'C04': ('CER', 'DER'), 'C05': ('BER', 'CER', 'DER'), 'C06': ('BER', 'CER', 'DER'), 'C07': ('BER', 'CER', 'DER'),
- 'C11': ('BER', 'CER', 'DER'), 'C12': ('BER', 'CER', 'DER'), 'C13': ('BER',),
+ 'C12': ('BER', 'CER', 'DER'), 'C13': ('BER',),
  'C17': ('BER', 'CER', 'DER'),
 }
 ENC_WITNESS = {
@@ -114,7 +114,19 @@ ENTRIES.append(('C16', 'time-fraction-zeros', ['der:time-fraction-zeros'], "('c1
 
 ENTRIES.append(('C20', 'time-fraction-zeros', ['time-fraction-zeros'], "('c20-str', 'GeneralizedTime', '197008280053.020Z', 'CER')"))
 
+_WRAP_WHAT = ("CachingStreamWrapper (used for every non-seekable substrate) drops its cache and renumbers positions from 0 when the mark is set more than io.DEFAULT_BUFFER_SIZE octets into the cache; the decoder keeps absolute positions (original_position, bytesRead) of enclosing definite-length elements across that point")
+_WRAP_WHY = "pinned by tests/codec/test_streaming.py CachingStreamWrapperTestCase.testMarkedPositionResets, which asserts markedPosition == 0 and an empty cache after the drop"
 EXTRA = [
+ {'id': 'KF-C11-wrapper-renumbering-breaks-long-definite-elements', 'status': 'open', 'property': 'C11',
+  'symptom': ['kind-differs:raw-vs-bytesio:*'], 'zone': ['definite-constructed-spans-a-cache-drop', 'kind:raw'],
+  'what': _WRAP_WHAT + ' -- so a definite-length constructed element that starts before and ends after such a point cannot be decoded from a non-seekable stream (length mismatch / excessive components), while every seekable kind decodes it',
+  'why_open': _WRAP_WHY,
+  'witness': "('c11-kinds-gen', 9000, 'oneshot')"},
+ {'id': 'KF-C11-wrapper-renumbering-position-jumps', 'status': 'open', 'property': 'C11',
+  'symptom': ['wrapper:mark-deviates'], 'zone': ['cache-dropped'],
+  'what': _WRAP_WHAT + ' -- tell() jumps backwards without any octet having been moved, which no seekable stream does',
+  'why_open': _WRAP_WHY,
+  'witness': "('c11-wrapper', 40970, 1, 60)"},
  {'id': 'KF-C12-default-constructed-history', 'status': 'open', 'property': 'C12',
   'symptom': ['outcome-differs-from-isolated-call:*', 'value-changed-by:*', 'schema-changed-by:*', 'threaded-call-differs:*'], 'zone': ['default-constructed'],
   'what': FAMILIES['default-constructed']['what'] + ' -- seen here as: whether encoding a value with a constructed DEFAULT component succeeds depends on which read accessors ran before (they leave schema placeholders in the value or in the shared DEFAULT object, on which == then raises)',
